@@ -34,13 +34,30 @@ func c17FixedNames() []string {
 	names, _ := c15Names()
 	var out []string
 	for _, n := range names {
-		ref := spec.OXMByName(strings.ToUpper(n))
-		if ref == nil || ref.Width == 0 {
+		if c17Width(strings.ToUpper(n)) == 0 {
 			continue
 		}
 		out = append(out, strings.ToUpper(n))
 	}
 	return out
+}
+
+// c17Width is the payload width of a registered name: the reference table's, or for the variable-width tunnel
+// metadata fields (1..124 bytes in OVS) the width the registry itself gives them, which is what the builder works with.
+func c17Width(name string) int {
+	ref := spec.OXMByName(name)
+	if ref == nil {
+		return 0
+	}
+	if ref.Width != 0 {
+		return ref.Width
+	}
+	if strings.HasPrefix(name, "NXM_NX_TUN_METADATA") {
+		if f, err := of.FindFieldHeaderByName(name, false); err == nil && f.Length >= 1 && f.Length <= 124 {
+			return int(f.Length)
+		}
+	}
+	return 0
 }
 
 func c17Others() []string {
@@ -455,12 +472,14 @@ func c17Values(r *prng.R, n int) []*big.Int {
 
 func c17Eval(c *fw.Ctx, data any) {
 	cs := data.(*c17Case)
-	ref := spec.OXMByName(cs.Name)
-	if ref == nil || ref.Width == 0 {
+	if cs.Conv == "" {
+		apiNoise(prng.Derive(c.Seed, 1718, uint64(c.Index)), 20) // other use of the library first
+	}
+	W := c17Width(cs.Name)
+	if W == 0 {
 		c.Inconclusive("field " + cs.Name + " not in the reference table")
 		return
 	}
-	W := ref.Width
 	if cs.Conv != "" { // single item
 		v, ok := new(big.Int).SetString(cs.Value, 10)
 		if !ok {
